@@ -17,14 +17,17 @@ def iterate_axis_combinations(items):
     """
     items_set = frozenset(items)
     yield (items_set,)
+    # combinations are drawn from the items in the order given by the caller (not
+    # from the frozenset, whose iteration order depends on the string hash seed)
+    items = list(dict.fromkeys(items))
     N = len(items)
     for nleft in range(N - 1, 0, -1):
         nright = N - nleft
         for sub_loop, sub_items in itertools.product(
             range(min(nright, nleft), 0, -1),
-            itertools.combinations(items_set, nleft),
+            itertools.combinations(items, nleft),
         ):
             these = frozenset(sub_items)
-            those = items_set - these
+            those = [i for i in items if i not in these]
             others = [frozenset(i) for i in itertools.combinations(those, sub_loop)]
             yield (these,) + tuple(others)
